@@ -83,7 +83,7 @@ func (p Probe) req() scen.Req {
 
 func probeFor(v string) Probe {
 	return Probe{
-		Args:    [][2]string{{"a", v}, {"b", v}, {"ab", v}, {"c", "zz"}, {"p/q", v}, {"d", "v1"}, {"bc", v}},
+		Args:    [][2]string{{"a", v}, {"b", v}, {"ab", v}, {"c", "zz"}, {"p/q", v}, {"d", "v1"}, {"bc", v}, {`q\x`, v}},
 		Headers: [][2]string{{"x-a", v}, {"x-q", "v1"}},
 	}
 }
